@@ -64,15 +64,21 @@ pub fn build_source(case: &Value) -> (Vec<u8>, String) {
     };
     let o = d.stream(8, 0, &format!("/Type /XObject /Subtype /Form /BBox [0 0 9 9] /OC 6 0 R /Resources << /ExtGState << /GA << /LW 1.5 >> >> >> {}", fdict), &fdata, None, false);
     e.push((8, XEntry::InUse { off: o, gen: 0 }));
-    let o = d.stream(9, 0, "/Type /XObject /Subtype /Form /BBox [0 0 9 9] /Resources << /ExtGState << /GB << /LW 3.5 >> >> /Properties << /MC0 6 0 R >> /XObject << /Self 9 0 R >> >>", b"0 0 1 1 re f", None, false);
+    // the second form's resources are an object of their own (9 0 obj), shared with a third form that they list themselves:
+    // resources -> form -> the same resources again
+    let o = d.stream(9, 0, "/Type /XObject /Subtype /Form /BBox [0 0 9 9] /Resources 9001 0 R", b"0 0 1 1 re f", None, false);
     e.push((9, XEntry::InUse { off: o, gen: 0 }));
+    let o = d.obj(9001, 0, b"<< /ExtGState << /GB << /LW 3.5 >> >> /Properties << /MC0 6 0 R >> /XObject << /Self 9 0 R /Other 9002 0 R >> >>");
+    e.push((9001, XEntry::InUse { off: o, gen: 0 }));
+    let o = d.stream(9002, 0, "/Type /XObject /Subtype /Form /BBox [0 0 9 9] /Resources 9001 0 R", b"0 0 2 2 re f", None, false);
+    e.push((9002, XEntry::InUse { off: o, gen: 0 }));
     for k in 1..=n {
         let refs: Vec<String> = ids(&edges[k as usize - 1]).iter().map(|r| format!("{} 0 R", 10 + r)).collect();
         // every graph object is a loadable font dictionary so that it can sit behind /F1
         let o = d.obj(10 + k, 0, format!("<< /Type /Font /Subtype /Type1 /BaseFont /Helvetica /Marker {} /Refs [{}] >>", k, refs.join(" ")).as_bytes());
         e.push((10 + k, XEntry::InUse { off: o, gen: 0 }));
     }
-    d.xref_table(&e, 11 + n, "/Root 1 0 R", None, Split::Min);
+    d.xref_table(&e, 9003, "/Root 1 0 R", None, Split::Min);
     (d.buf, content)
 }
 
@@ -159,6 +165,11 @@ pub fn run(cases_path: &str, report_path: &str, _opts: &[String]) {
                 }
                 if !dangling.is_empty() {
                     fail(&mut rep, "closure".into(), json!({"dangling": dangling}));
+                }
+                // the shared resources object of the second and third form (the one with /ExtGState /GB) exists once
+                let shared = (1..size).filter(|id| matches!(r.resolve(PlainRef { id: *id, gen: 0 }), Ok(Primitive::Dictionary(d)) if matches!(d.get("ExtGState"), Some(Primitive::Dictionary(g)) if g.get("GB").is_some()))).count();
+                if shared > 1 {
+                    fail(&mut rep, "single-copy:shared-resources".into(), json!({"copies": shared}));
                 }
                 let ideal = ids(&case["ideal"]);
                 let mech = ids(&case["mech"]);
